@@ -62,7 +62,16 @@ pub(crate) const MAX_BATCH_BYTES: u64 = 4 * 1024 * 1024;
 
 static LAST_MILLIS: AtomicU64 = AtomicU64::new(0);
 
+#[allow(dead_code)]
 pub(crate) fn now_millis_str() -> String {
+    now_millis_str_after(0)
+}
+
+/// A millisecond timestamp that is larger than every value returned before in this
+/// process and larger than `floor`. WAL files are named with it and recovery replays
+/// them in name order, so a new file must sort after all existing ones even when the
+/// wall clock moved backwards between runs.
+pub(crate) fn now_millis_str_after(floor: u64) -> String {
     let system_ms = SystemTime::now()
         .duration_since(SystemTime::UNIX_EPOCH)
         .unwrap_or_else(|_| std::time::Duration::from_secs(0))
@@ -71,8 +80,9 @@ pub(crate) fn now_millis_str() -> String {
     let mut observed = LAST_MILLIS.load(Ordering::Relaxed);
     loop {
         let system_ms_u64 = system_ms.try_into().unwrap_or(u64::MAX);
-        let candidate = if system_ms_u64 <= observed {
-            observed.saturating_add(1)
+        let low = observed.max(floor);
+        let candidate = if system_ms_u64 <= low {
+            low.saturating_add(1)
         } else {
             system_ms_u64
         };
